@@ -650,11 +650,28 @@ def from_scratch(env, st, name):
     return fresh[name]
 
 
+def fractional_weights(env, rng, st):
+    """Weights are relative weights, not only 0/1 masks (WeightedTensor contract): some visits count half. Returns True if done."""
+    try:
+        from leaspy.utils.weighted_tensor import WeightedTensor
+        torch = env["torch"]
+        t = st["t"]
+        if isinstance(t, WeightedTensor) and t.weight is not None:
+            half = torch.tensor([[rng.random() < 0.3 for _ in range(t.value.shape[1])] for _ in range(t.value.shape[0])])
+            w = t.weight.to(torch.float32) * torch.where(half, torch.tensor(0.5), torch.tensor(1.0))
+            st["t"] = WeightedTensor(t.value.clone(), w)
+            return True
+    except Exception:  # noqa
+        pass
+    return False
+
+
 class RealOracle:
     def __init__(self, env, model_name, kw, rng):
         self.env, self.rng = env, rng
         self.model_name, self.kw = model_name, kw
         self.model, self.st, self.ds = real_state(env, model_name, kw)
+        self.frac_weights = fractional_weights(env, rng, self.st) if rng.random() < 0.5 else False
         self.st.auto_fork_type = env["StateForkType"].REF
         from leaspy.variables.specs import IndividualLatentVariable, PopulationLatentVariable, LinkedVariable
         dag = self.st.dag
@@ -719,7 +736,7 @@ class RealOracle:
         torch, rng, st = self.env["torch"], self.rng, self.st
         names = list(st.dag.sorted_variables_names)
         for step in range(steps):
-            kind = rng.choice(["pop-accept", "pop-reject", "ind-accept", "ind-reject", "ind-partial", "ind-partial", "clone"])
+            kind = rng.choice(["pop-accept", "pop-reject", "ind-accept", "ind-reject", "ind-partial", "ind-partial", "clone", "data-mask"])
             extreme = rng.random() < 0.35
             ctx = f"{self.model_name} step {step} {kind}{' extreme' if extreme else ''}"
             self.log.append(ctx)
@@ -731,6 +748,30 @@ class RealOracle:
                     for k in rng.sample(names, 4):
                         self.check_read(c, k, ctx + " (clone)")
                         self.check_read(st, k, ctx + " (original after clone write)")
+                    continue
+                if kind == "data-mask":
+                    # the observations are assigned again with the very same numbers but another mask (a score that was 0 is
+                    # now missing, as a re-loaded table would give): everything computed from them must follow
+                    from leaspy.utils.weighted_tensor import WeightedTensor
+                    y = st["y"] if "y" in st.dag else None
+                    if isinstance(y, WeightedTensor) and y.weight is not None and bool((y.weight > 0).any()):
+                        for k in rng.sample(names, rng.randrange(1, 5)):
+                            self.check_read(st, k, ctx + " before")
+                        w = y.weight.clone()
+                        on = (w > 0).nonzero(as_tuple=False).tolist()
+                        for idx in rng.sample(on, min(len(on), rng.randrange(1, 4))):
+                            w[tuple(idx)] = 0
+                        st["y"] = WeightedTensor(y.value.clone(), w)
+                        keep = rng.random() < 0.5
+                        if not keep:
+                            for k in rng.sample(names, rng.randrange(0, 3)):
+                                self.check_read(st, k, ctx + " after re-assignment")
+                            st.revert()
+                        for k in rng.sample(names, min(len(names), 6)):
+                            self.check_read(st, k, ctx + (" kept" if keep else " reverted"))
+                        for k in ("n_obs", "n_obs_per_ft", "nll_attach_ind", "nll_attach"):
+                            if k in st.dag:
+                                self.check_read(st, k, ctx + (" kept" if keep else " reverted"))
                     continue
                 var = rng.choice(self.pop if kind.startswith("pop") else self.ind)
                 for k in rng.sample(names, rng.randrange(0, 4)):
